@@ -75,20 +75,23 @@ pub fn gnu_no_stop_bit() {
     }
 }
 
-/// One step from an ARBITRARY iterator state: a single next() of a version-record iterator does a constant amount of work
-/// (it parses one record and follows one link), whatever count, start offset and bytes it is given. The unwinding assertion of
-/// this harness (bound 3) is the obligation: today next() contains no loop at all, so any loop a change introduces into one step
-/// must be bounded by a constant, not by the declared count or by link values. Together with "at most one item per byte" above
-/// (the number of steps) this bounds the total work of an iteration by the input size.
+/// One step from an ARBITRARY iterator state: a single next() of a version-record iterator does work bounded by the input size
+/// (today it parses one record and follows one link: no loop at all), whatever count, start offset and bytes it is given. The
+/// unwinding assertion of this harness is the obligation; its bound is the byte length + 2, so a loop inside one step that advances
+/// by at least one byte per iteration passes, while a loop governed by the declared count or by a non-advancing link does not.
+/// Together with "at most one item per byte" above (the number of steps) this bounds the total work of an iteration.
+/// Declared counts are 0..=2 or >= 2^40 here (mid-range counts: the whole-iteration harnesses above): a counterexample then spins
+/// for at least 2^40 iterations natively, which is what the native replay can observe (it has no iteration counter, only a clock).
 macro_rules! ver_one_step {
-    ($name:ident, $iter:ident, $cnt:ty, $b:expr) => {
+    ($name:ident, $iter:ident, $cnt:ty, $b:expr, $huge:expr) => {
         #[kani::proof]
-        #[kani::unwind(3)]
+        #[kani::unwind(26)]
         pub fn $name() {
             let (buf, len) = any_buf::<$b>();
             let data = &buf[..len];
             let e = any_endian();
             let count: $cnt = kani::any();
+            kani::assume(!$huge || count as u64 <= 2 || count as u64 >= (1u64 << 40));
             let start: usize = kani::any();
             let mut it = $iter::new(e, Class::ELF64, count, start, data);
             let first = it.next();
@@ -97,7 +100,7 @@ macro_rules! ver_one_step {
         }
     };
 }
-ver_one_step!(verneed_one_step, VerNeedIterator, u64, 24);
-ver_one_step!(vernaux_one_step, VerNeedAuxIterator, u16, 24);
-ver_one_step!(verdef_one_step, VerDefIterator, u64, 24);
-ver_one_step!(verdaux_one_step, VerDefAuxIterator, u16, 24);
+ver_one_step!(verneed_one_step, VerNeedIterator, u64, 24, true);
+ver_one_step!(vernaux_one_step, VerNeedAuxIterator, u16, 24, false);
+ver_one_step!(verdef_one_step, VerDefIterator, u64, 24, true);
+ver_one_step!(verdaux_one_step, VerDefAuxIterator, u16, 24, false);
